@@ -23,18 +23,33 @@ Oracle (no model involved), on the real engine booted by harness/engine_driver.p
   request for an unsafe action is not run and yields one error report.  Executor-level statements are
   also checked directly on every executor case.
 
-Self-test (mutations of the anchored source in a scratch worktree, each must give VIOLATION):
-  M1 default_executor.py  `if redelivered and not safe_rerun:` -> `if redelivered and safe_rerun:`
-  M2 default_executor.py  send_error_back also returns error_result when action_ex_id is set
-                          (`return None` -> `return error_result`)
-  M3 default_executor.py  result sent for every action: `(action.is_sync() or result.is_error())` -> dropped
-  M4 default_executor.py  MistralException handler falls through (no `return send_error_back(msg)`)
-  M5 executor_server.py   `redelivered = rpc_ctx.redelivered or False` -> `redelivered = False`
-  M6 engine/actions.py    RegularAction.complete: `if states.is_completed(...)` guard -> only SUCCESS
-                          (`self.action_ex.state == states.SUCCESS`)
-  M7 engine/tasks.py      Task.complete: `if self.is_completed() and not states.is_skipped(state)` -> removed
-  M8 engine/tasks.py      _run_new: `if states.is_idle(self.task_ex.state)` -> `if not states.is_completed(..)`
-  M9 default_engine.py    start_workflow: DBDuplicateEntryError handler re-raises
+Self-test (mutations of the anchored source in a scratch worktree; `VERIF_REPO=/tmp/wt_C06 ./check C06`; all gave VIOLATION
+unless noted; the oracle signature that exposed each one is given):
+  M1  default_executor.py  `if redelivered and not safe_rerun:` -> `if redelivered and safe_rerun:`
+                           executor:unsafe-redelivery-ran, executor:unsafe-redelivery-reports, engine:unsafe-redelivery-ran
+  M2  default_executor.py  send_error_back: `return None` -> `return error_result` (error reported on both channels)
+                           executor:unsafe-redelivery-reports
+  M3  default_executor.py  `if action_ex_id and (action.is_sync() or result.is_error()):` -> `if action_ex_id:`
+                           executor:async-result-sent
+  M4  default_executor.py  MistralException handler without `return send_error_back(msg)`
+                           correspondence only (no-failing-input-found): a lost result, not a double one
+  M5  executor_server.py   `redelivered = rpc_ctx.redelivered or False` -> `redelivered = False`
+                           executor:unsafe-redelivery-ran
+  M6  engine/actions.py    RegularAction.complete guard `states.is_completed(state)` -> `state == states.SUCCESS`
+                           action:second-result-accepted
+  M7  engine/tasks.py      Task.complete: `if self.is_completed() and not states.is_skipped(state): return` removed
+                           task:completion-logic-twice, engine:duplicate-on_action_complete-changed-rows (sub-workflow result)
+  M8  engine/tasks.py      _run_new: `if states.is_idle(state)` -> `if not states.is_completed(state)`
+                           task:actions-scheduled-twice, engine:duplicate-start_task-changed-rows
+  M9  default_engine.py    start_workflow: DBDuplicateEntryError handler re-raises
+                           start:duplicate-id-wrong-execution
+  M10 default_executor.py  time-out: the late result is used instead of raising "Timeout"
+                           correspondence only (no-failing-input-found)
+  M14 engine/tasks.py      Task.complete ignores the CAS result of set_state        task:completion-logic-twice
+  M16 default_executor.py  unsafe redelivery: the action is run before the error is sent   executor:unsafe-redelivery-ran
+  M20 mistral/context.py   from_dict no longer restores `redelivered`               executor:unsafe-redelivery-ran
+  M11 action_handler.py    on_action_complete swallows the ValueError of a duplicate result: NOT flagged, correctly -
+                           rows still equal the duplicate-free run (the property holds for this variant)
 """
 import copy
 import itertools
